@@ -808,7 +808,12 @@ func walkerDriver(reg *[]okGrammar) func(g *grammar.Grammar, name string) string
 			}
 			fmt.Fprintf(&b, "\nfunc run_%s(text string) (res rt.Result) {\n", n)
 			b.WriteString("\tvar events []rt.Event\n")
-			fmt.Fprintf(&b, "\tlistener := func(t %s.NodeType, offset, endoffset int) {\n\t\tevents = append(events, rt.Event{Type: t.String(), Off: offset, End: endoffset})\n\t}\n", n)
+			if len(ok.g.Parser.UsedFlags) > 0 {
+				// grammars with node flags (-> A/Foo) get a Listener with a flags argument
+				fmt.Fprintf(&b, "\tlistener := func(t %[1]s.NodeType, flags %[1]s.NodeFlags, offset, endoffset int) {\n\t\tevents = append(events, rt.Event{Type: t.String(), Flags: int(flags), Off: offset, End: endoffset})\n\t}\n", n)
+			} else {
+				fmt.Fprintf(&b, "\tlistener := func(t %s.NodeType, offset, endoffset int) {\n\t\tevents = append(events, rt.Event{Type: t.String(), Off: offset, End: endoffset})\n\t}\n", n)
+			}
 			fmt.Fprintf(&b, "\tvar p %s.Parser\n\tp.Init(listener)\n", n)
 			if o.TokenStream {
 				fmt.Fprintf(&b, "\tvar s %s.TokenStream\n\ts.Init(text, listener)\n\tperr := p.Parse(%s&s)\n", n, ctxArg)
@@ -1426,7 +1431,7 @@ func run(c *core.Ctx) {
 	for _, s := range seeds {
 		ci, ok := byRules[s]
 		if !ok {
-			c.Violate("harness:seed-not-in-enumeration", s, nil)
+			c.Capped("harness failure: seed grammar is not a member of the enumeration: " + s)
 			continue
 		}
 		if !inOrder[ci] {
@@ -1567,7 +1572,21 @@ func run(c *core.Ctx) {
 		}
 		return all[i].ti < all[j].ti
 	})
+	harness := 0
 	for _, f := range all {
+		if strings.HasPrefix(f.key, "harness:") {
+			// A defect of this check (e.g. the walker driver does not compile against the
+			// package generated for one grammar) is not a violation of the property: the
+			// grammar is named, counted as not checked, and the run is marked incomplete.
+			harness++
+			c.Add("harness_failures", 1)
+			if harness <= 5 {
+				c.Set(fmt.Sprintf("harness_failure_%d", harness), map[string]string{"key": f.key, "grammar": f.it.Name, "shape": f.it.Cand.Shape, "variant": f.it.Variant.Name, "rules": f.it.Cand.Rules, "input": f.text, "what": f.what})
+			}
+			c.Capped(fmt.Sprintf("harness failure, grammar %s (%s, %s) not checked: %s", f.it.Name, f.it.Cand.Shape, f.it.Variant.Name, f.key))
+			fmt.Printf("HARNESS-FAILURE property=C21 grammar=%s key=%s :: %s\n", f.it.Name, f.key, strings.ReplaceAll(f.what, "\n", "\\n"))
+			continue
+		}
 		c.Violate(f.key, f.what, c21Case{Name: f.it.Name, Shape: f.it.Cand.Shape, Variant: f.it.Variant.Name, TM: f.it.TM, Text: f.text})
 	}
 }
